@@ -9,21 +9,22 @@
 From Verif Require Import Base.Prelude.
 Local Open Scope N_scope.
 
-Definition smap := list (N * N).
+Definition smap_of (A : Type) := list (N * A).
+Definition smap := smap_of N.      (* the instance the correspondence runs: uint16 keys, uint64 values *)
 
-Fixpoint sm_load (m : smap) (k : N) : option N :=
+Fixpoint sm_load {A} (m : smap_of A) (k : N) : option A :=
   match m with
   | [] => None
   | (a, b) :: r => if a =? k then Some b else sm_load r k
   end.
 
-Fixpoint sm_remove (m : smap) (k : N) : smap :=
+Fixpoint sm_remove {A} (m : smap_of A) (k : N) : smap_of A :=
   match m with
   | [] => []
   | (a, b) :: r => if a =? k then sm_remove r k else (a, b) :: sm_remove r k
   end.
 
-Definition sm_store (m : smap) (k v : N) : smap := (k, v) :: sm_remove m k.
+Definition sm_store {A} (m : smap_of A) (k : N) (v : A) : smap_of A := (k, v) :: sm_remove m k.
 
 (* the condition functions the harness passes to StoreIf, described finitely:
    0 always set, 1 set if absent, 2 set if present, 3 set if absent or previous < v (the monotone update), else never *)
